@@ -122,7 +122,20 @@ class BundleInstance:
         """# Right multiplication. Creates `num` copies of ourselves."""
         if not isinstance(num, int):
             return NotImplemented
-        return [copy(self) for _ in range(num)]
+        return [self._copy() for _ in range(num)]
+
+    def _copy(self) -> "BundleInstance":
+        """Create an unconnected copy of ourselves, sharing no state with the original."""
+        return BundleInstance(
+            name=self.name,
+            of=self.of,
+            port=self.port,
+            flipped=self.flipped,
+            role=self.role,
+            src=self.src,
+            dest=self.dest,
+            desc=self.desc,
+        )
 
 
 # Type-alias for HDL objects storable as `Module` attributes
@@ -535,7 +548,7 @@ def flippable(b: Bundle) -> bool:
 
 def flipped(bi: BundleInstance) -> BundleInstance:
     """# Create a flipped copy of a BundleInstance"""
-    cp = copy(bi)
+    cp = bi._copy()
     cp.flipped = not cp.flipped
     return cp
 
